@@ -26,7 +26,10 @@ Local Open Scope Z_scope.
    KResume   resume(suspend_point)        closure owns the handle: destroyed => coroutine resumed by the destroying thread (fix C11-resume)
    KRunAsync run(async)                   closure owns coroutine + promise (fix C11-run-async)
    After the two fixes destruction of an un-run closure reaches the waiter for every kind. *)
-Inductive ckind := KHop | KAwt | KRunFn | KDet | KResume | KRunAsync.
+Inductive ckind := KHop | KAwt | KRunFn | KDet | KResume | KRunAsync
+  | KDetThrow.   (* run_detached(fn) where moving fn into the queue throws: the push fails, fn dies in the caller *)
+(* does the move of the closure into _queue (inside enqueue, under the lock) throw? *)
+Definition throws (k : ckind) : bool := match k with KDetThrow => true | _ => false end.
 
 (* what a job does when it runs: a list of pool operations *)
 Inductive act :=
@@ -139,8 +142,9 @@ Definition drop_all (t : nat) (s : st) (l : list nat) : st * list ev := fold_lef
 Definition enqueue (s : st) (t : nat) (lbl : nat) (k : ckind) (b : body) : st * list ev :=
   let c := length (clos s) in
   let s1 := with_clos s (clos s ++ [mkClo lbl k b 0 0 0 0]) in
-  if exit_ s then
-    (* not moved from: the temporary q_item dies in the caller, after the lock was released *)
+  if exit_ s || throws k then
+    (* not moved from (or the move threw, std::queue::push has no effect): the temporary q_item dies in the caller,
+       after the lock was released *)
     drop1 t (s1, []) c
   else
     (* push + notify_one *)
@@ -327,10 +331,11 @@ Fixpoint run_sched (fuel : nat) (s : st) (sched : list Z) (tr : list (list Z)) :
 Definition kind_of (z : Z) : option ckind :=
   match z with
   | 0 => Some KHop | 1 => Some KAwt | 2 => Some KRunFn | 3 => Some KDet | 4 => Some KResume | 5 => Some KRunAsync
+  | 6 => Some KDetThrow
   | _ => None
   end.
 Definition kind_code (k : ckind) : Z :=
-  match k with KHop => 0 | KAwt => 1 | KRunFn => 2 | KDet => 3 | KResume => 4 | KRunAsync => 5 end.
+  match k with KHop => 0 | KAwt => 1 | KRunFn => 2 | KDet => 3 | KResume => 4 | KRunAsync => 5 | KDetThrow => 6 end.
 
 (* body actions: 0..5 submit a closure of that kind, 6 stop(), 7 is_stopped(), 8 any_enqueued(), 9 co_await current(),
    10+j wait (blocking) for the outcome of submission j; 50+j (last action, run(async) jobs): the coroutine suspends on
@@ -534,6 +539,7 @@ Definition ev_ok (d : dec) (l : list Z) : bool :=
   | 666 :: _ => false          (* a thread reached a scheduling point while holding the pool mutex *)
   | 777 :: _ => false          (* deadlock *)
   | 888 :: _ => false          (* a thread used the pool after ~thread_pool returned *)
+  | [400; n] => Z.eqb n 0      (* submissions neither run nor cancelled when ~thread_pool returned (engine poolf) *)
   | _ => true
   end.
 (* every submission that the case declares at top level was made (labels 0..j-1 all present) *)
